@@ -47,9 +47,9 @@ func newIndividualNode(document *Document, pointer string, children ...Node) *In
 // checkCache forgets the cached families, spouses and unique identifiers if
 // any nodes have been added or removed since they were cached.
 func (node *IndividualNode) checkCache() {
-	if node.cachedAt != nodeCache {
+	if current := currentNodeCache(); node.cachedAt != current {
 		node.resetCache()
-		node.cachedAt = nodeCache
+		node.cachedAt = current
 	}
 }
 
